@@ -70,6 +70,9 @@ def check_diagnostics(errs, files, fault=None):
         # a caret must stand under a quoted source line: a position rendered as a bare '<unknown>' line (a cause whose source text
         # was not available to the renderer) is a position without the line it belongs to
         for m in re.finditer(r"^[ \t]*<unknown>[ \t]*\n[ \t]*\^", e, re.M):
+            in_cause = "\u2514\u2500\u2192" in e[:m.start()]
+            if not in_cause and line and int(line) > n:
+                continue   # the diagnostic's own position is the end of the input after the final line break: there is no line to quote
             out.append(("position-without-source-line", "a caret under '<unknown>' instead of a quoted source line"))
             break
         for m in re.finditer(r"^ *(\d+) \| .*\n +\^", e, re.M):
@@ -145,6 +148,8 @@ def cases(tier, seed):
                     continue   # the single-fault space: sequences of the scope / constructor machines with more than one fault are not in it
                 if quick and (zlib.crc32(c["id"].encode()) % 3):
                     continue
+                if not quick and (zlib.crc32(c["id"].encode()) % 4):
+                    continue   # thorough: a quarter of the (much larger) thorough spaces of C05-C09 - the rendering does not depend on the context depth
                 yield {"id": "c19-" + c["id"], "family": "c19.typefault." + name, "mode": "single", "src": c["src"], "fault_line": c["fault_line"], "tags": c["tags"][:4] + ["from:" + c["family"]]}
     for c in c08.cases(tier, seed):
         if c["expect"] == "err" and (not quick or zlib.crc32(c["id"].encode()) % 4 == 0):
